@@ -152,6 +152,8 @@ func runPFaultCase(c *Case, env *Env) *Result {
 	exec := func(wf *WriteFault, cancelAt int) *pfOutcome {
 		Heartbeat()
 		out := &pfOutcome{}
+		var firstBuf []byte
+		firstWrites := 0
 		wr := NewSimWriter(sched)
 		wr.Fault = wf
 		var closeCh chan struct{}
@@ -193,10 +195,13 @@ func runPFaultCase(c *Case, env *Env) *Result {
 				m := ice.Merge(runSegs, drops, pc.Merge.Buf)
 				out.pi = Guard(func() { out.ret, out.err = m.WriteTo(wr, closeCh) })
 				if out.pi == nil && out.err != nil {
-					wr2 := NewSimWriter(sched)
+					// what the first attempt wrote is part of the outcome; then the caller
+					// truncates the SAME destination and asks the same Merger again
+					firstBuf, firstWrites = append([]byte{}, wr.Buf...), wr.Calls
+					wr.Truncate()
 					out.retried = true
-					out.retryPi = Guard(func() { out.retryRet, out.retryErr = m.WriteTo(wr2, nil) })
-					out.retryBuf = wr2.Buf
+					out.retryPi = Guard(func() { out.retryRet, out.retryErr = m.WriteTo(wr, nil) })
+					out.retryBuf = wr.Buf
 				}
 			} else {
 				_, out.ret, out.pi, out.err = RunMerge(pc.Merge, pc.Mode, runSegs, drops, wr, closeCh)
@@ -208,6 +213,9 @@ func runPFaultCase(c *Case, env *Env) *Result {
 		out.buf = wr.Buf
 		out.events = event
 		out.writes = wr.Calls
+		if out.retried {
+			out.buf, out.writes = firstBuf, firstWrites
+		}
 		// whatever happened: the caller's slices and bitmaps are the caller's
 		for k := range dropsRef {
 			if (drops[k] == nil) != (dropsRef[k] == nil) || (drops[k] != nil && !drops[k].Equals(dropsRef[k])) {
